@@ -58,6 +58,9 @@ package logic
 //   3. assembler.go asmPushInt: varuint immediate truncated to one byte               -> dis-error
 //   4. assembler.go resolveLabels: v13 backward varint jump measured from lr.position -> roundtrip/check
 //   5. assembler.go disassemble immInt8 printed unsigned                              -> reasm-error (frame_bury 255)
+//   6. assembler.go typeLoads range check reverted                                    -> assembler-panic:pseudo:int+loads
+//   seeded C33-A (findBranchSizes back-jump measured from the offset byte: distance 64 / 8192)
+//   and C33-B (2-byte label range check against MaxUint16: forward 32768..65535)      -> part F
 //
 //  F. branch distances at the encoding limits: a padding body of exactly n bytes between branch
 //     and label, forward and backward, n in 62..66, 126..130, 8188..8194, 16382..16386,
